@@ -8,6 +8,7 @@ import (
 	"os"
 	"os/exec"
 	"path/filepath"
+	"strconv"
 	"strings"
 	"sync"
 
@@ -86,8 +87,16 @@ func supervise(id string) int {
 	root := vk.Root()
 	_ = os.MkdirAll(filepath.Join(root, "replays"), 0o755)
 	p := filepath.Join(root, "replays", fmt.Sprintf("%s-crash-%d.json", id, os.Getpid()))
+	seed, _ := strconv.ParseInt(os.Getenv("VERIF_SEED"), 10, 64)
+	if seed == 0 {
+		seed = 1
+	}
+	tier := "quick"
+	if len(os.Args) > 2 && os.Args[2] == "thorough" {
+		tier = "thorough"
+	}
 	b, _ := json.MarshalIndent(map[string]interface{}{
-		"property": id, "key": key, "args": os.Args[1:], "seed": os.Getenv("VERIF_SEED"), "exit": code,
+		"property": id, "key": key, "args": os.Args[1:], "seed": seed, "tier": tier, "exit": code, // (--replay re-runs the check with this seed and tier)
 		"what":     "the process running the check died before finishing; head and tail of its stderr follow",
 		"witness":  map[string]string{"stderr_head": clip(stderr, 24000), "stderr_tail": clip(errTail.String(), 24000)},
 	}, "", " ")
